@@ -371,7 +371,11 @@ func init() {
 				pairBudgets = []explore.Budget{{0, 0}, {1, 0}, {2, 0}, {2, 1}}
 			}
 			add := func(p c06Params, bs []explore.Budget, cost int) {
-				jobs = append(jobs, ExploreJob("C06", ExploreSpec{Sc: c06Scenario(p), Variants: []int{1, 2, 3}, Budgets: bs, Cache: true}, cost))
+				spec := ExploreSpec{Sc: c06Scenario(p), Variants: []int{1, 2, 3}, Budgets: bs, Cache: true}
+				if len(jobs) == 0 {
+					spec.CrossChk = &explore.Budget{K: 2} // cache-on vs cache-off on the first scenario
+				}
+				jobs = append(jobs, ExploreJob("C06", spec, cost))
 				p.NoProbe = true
 				jobs = append(jobs, ExploreJob("C06", ExploreSpec{Sc: c06Scenario(p), Variants: []int{1, 2, 3}, Budgets: bs, Cache: true}, cost))
 			}
